@@ -105,3 +105,9 @@ func (env *Env) checkTop() string {
 	}
 	return ""
 }
+
+func vrtSleep(d time.Duration) { vrt.Sleep(int64(d)) }
+func fail(msg string)          { vrt.Fail(msg) }
+func markResult(env *Env) {
+	vrt.Mark(fmt.Sprintf("result=(%d,%s) t=%d invs=%d events=[%s]", env.ResV, errStr(env.ResE), env.DoneAt, len(env.Invs), env.eventSummary()))
+}
